@@ -39,6 +39,11 @@ Verdict(r) ==
        (IF r.result = "panic" THEN "panic"
         ELSE IF r.ok /\ KeyLenOf(r.dst_ver, r.dst_kind) # 0 /\ r.body_len # KeyLenOf(r.dst_ver, r.dst_kind)
              THEN "bytes-of-another-kinds-length-accepted-as-key" ELSE "ok")
+  ELSE IF r.fn = "xsuffix" THEN          \* the payload encoding (header suffix) is part of the kind
+       (IF r.panic THEN "panic"
+        ELSE IF r.src_suffix # r.dst_suffix /\ r.parsed THEN "token-of-another-payload-encoding-accepted"
+        ELSE IF r.src_suffix = r.dst_suffix /\ ~(r.parsed /\ r.opened) THEN "own-payload-encoding-rejected"
+        ELSE "ok")
   ELSE IF r.fn = "xser" THEN (IF r.binary_form_is_the_text THEN "ok" ELSE "binary-serde-form-drops-the-version-and-kind-header")
   ELSE IF r.fn = "xserde" THEN          \* through serde in a binary format: the same separation as through FromStr
        (LET same == r.src_ver = r.dst_ver /\ TextKindOf(r.src_kind) = TextKindOf(r.dst_kind)
